@@ -8,6 +8,9 @@ pub mod c07;
 pub mod c08;
 pub mod c09;
 pub mod c10;
+pub mod c13;
+pub mod c14;
+pub mod c17;
 pub mod hist;
 
 use crate::evidence::KnownFindings;
@@ -29,6 +32,9 @@ pub fn run(cfg: &RunCfg) -> i32 {
         "C08" => c08::run(cfg),
         "C09" => c09::run(cfg),
         "C10" => c10::run(cfg),
+        "C13" => c13::run(cfg),
+        "C14" => c14::run(cfg),
+        "C17" => c17::run(cfg),
         other => {
             eprintln!("unknown property {other}");
             2
@@ -81,6 +87,15 @@ pub fn replay(prop: &str, file: &str) -> i32 {
             "C10" => serde_json::from_value::<c10::Case>(case.clone())
                 .map_err(|e| Failure::new("replay.parse", "a C10 case", e.to_string()))
                 .and_then(|c| c10::check_case(&c, &strict).map(|_| ())),
+            "C13" => serde_json::from_value::<c13::Case>(case.clone())
+                .map_err(|e| Failure::new("replay.parse", "a C13 case", e.to_string()))
+                .and_then(|c| c13::check_case(&c, &strict).map(|_| ())),
+            "C17" => serde_json::from_value::<c17::Case>(case.clone())
+                .map_err(|e| Failure::new("replay.parse", "a C17 case", e.to_string()))
+                .and_then(|c| c17::check_case(&c, &strict).map(|_| ())),
+            "C14" => serde_json::from_value::<c14::Msg>(case.clone())
+                .map_err(|e| Failure::new("replay.parse", "a C14 message", e.to_string()))
+                .and_then(|c| c14::check_msg(&c).map(|_| ())),
             "C04" => serde_json::from_value::<c04::Pair>(case.clone())
                 .map_err(|e| Failure::new("replay.parse", "a pair", e.to_string()))
                 .and_then(|p| c04::run_pair(&p, &strict).map(|_| ())),
